@@ -194,7 +194,85 @@ func (ck *checker) routes(e *jpref.Eq, elem any, class string, cs map[string]any
 		l, _ := out.([]any)
 		return len(l) == 0
 	})
+	// the same filter over gen data, and the filter with its operands rooted at the document instead of the
+	// element ($[0].x for @.x: the document is the one-element list, so the truth value is the same) over both
+	// representations: every evaluator has to hand the document, not the element, to the script
+	filters := map[string]*jp.Filter{"Filter": filter}
+	if er, changed := rootify(e); changed {
+		if p := mon.Guard(func() { filters["Filter($-rooted operands)"] = jpspec.ToEquation(er).Filter() }); p != nil {
+			c.Violation("jp.Equation.Filter", "panic", class, cs, "a filter", p.String())
+			return res, false
+		}
+		c.Cover("route:document-rooted-operands")
+	}
+	for fname, f := range filters {
+		fx := jp.Expr{f}
+		for _, rep := range []string{"simple", "gen"} {
+			if fname == "Filter" && rep == "simple" {
+				continue // done above
+			}
+			doc := func() any {
+				if rep == "gen" {
+					return gen.Array{toGen(elem)}
+				}
+				return []any{elem}
+			}
+			size := func(v any) int {
+				switch t := v.(type) {
+				case []any:
+					return len(t)
+				case gen.Array:
+					return len(t)
+				}
+				return -1
+			}
+			sfx := " in "
+			run(fname+sfx+"Get("+rep+")", func() bool { return len(fx.Get(doc())) == 1 })
+			run(fname+sfx+"Has("+rep+")", func() bool { return fx.Has(doc()) })
+			run(fname+sfx+"First("+rep+")", func() bool { _, found := fx.FirstFound(doc()); return found })
+			if fname == "Filter" { // Locate hands the element to $ operands: recorded as F-C11-locate-root under C11
+				run(fname+sfx+"Locate("+rep+")", func() bool { return len(fx.Locate(doc(), 0)) == 1 })
+			}
+			run(fname+sfx+"Walk("+rep+")", func() bool {
+				n := 0
+				fx.Walk(doc(), func(jp.Expr, []any) { n++ })
+				return n == 1
+			})
+			run(fname+sfx+"Modify("+rep+")", func() bool {
+				n := 0
+				_, _ = fx.Modify(doc(), func(e any) (any, bool) { n++; return e, false })
+				return n == 1
+			})
+			run(fname+sfx+"Remove("+rep+")", func() bool {
+				out, _ := fx.Remove(doc())
+				return size(out) == 0
+			})
+			run(fname+sfx+"RemoveOne("+rep+")", func() bool {
+				out, _ := fx.RemoveOne(doc())
+				return size(out) == 0
+			})
+		}
+	}
 	return res, ok
+}
+
+// rootify returns e with every element-rooted operand path (@...) rooted at the document instead ($[0]...),
+// for a document that is a one-element list holding the element; filters nested inside a path keep their @.
+func rootify(e *jpref.Eq) (*jpref.Eq, bool) {
+	if e == nil {
+		return nil, false
+	}
+	out := *e
+	changed := false
+	if e.Op == "path" && len(e.Path) > 0 && e.Path[0].Kind == "at" {
+		out.Path = append(jpref.Path{jpspec.Root(), jpspec.Nth(0)}, e.Path[1:]...)
+		return &out, true
+	}
+	var c1, c2 bool
+	out.L, c1 = rootify(e.L)
+	out.R, c2 = rootify(e.R)
+	changed = c1 || c2
+	return &out, changed
 }
 
 // check evaluates e on elem and compares with S.
